@@ -289,6 +289,25 @@ fn prop(t: &mut Tape, st: &mut Stats) -> Result<(), Failure> {
     }
     let case = || json!({"text": r.text});
     let mut doc: DocumentMut = r.text.parse().map_err(|e| Failure::new("parse", format!("{e}\n{}", r.text), case()))?;
+    // placeholders left behind by mutable indexing on a missing key are not part of the document:
+    // neither visitor may see them, and a rewriting visitor must not turn them into entries
+    if t.chance(1, 3) && !r.text.contains("__ph__") {
+        st.class("placeholders");
+        let _ = &mut doc["__ph__"];
+        for (_, item) in doc.as_table_mut().iter_mut() {
+            match item {
+                Item::Table(tb) => {
+                    let _ = &mut tb["__ph__"];
+                }
+                Item::ArrayOfTables(a) => {
+                    for tb in a.iter_mut() {
+                        let _ = &mut tb["__ph__"];
+                    }
+                }
+                _ => {}
+            }
+        }
+    }
     let mut expected = vec!["document".to_string()];
     walk_tbl(&r.expected, false, &mut expected);
     let mut rec = Rec::default();
